@@ -35,3 +35,14 @@ PROPS["C03"] = dict(
     design_ref="§6 C03",
     scope="all strings / byte strings / chars x 3 backends (writer level); positions by oracle",
 )
+
+PROPS["C04"] = dict(
+    groups=["quote"],
+    lean_props=["SeaQ.Props.C04"],
+    lean_obligations=[],
+    technique="Lean 4 proof (induction on the name) that the engine's quoted-identifier lexer reads back Iden::prepare's output, for the QUOTE constants regenerated from the source; Iden::prepare tied by exhaustive + random differential run; every identifier position checked on the real crate by a metamorphic oracle under an independent reference lexer",
+    level_text="Machine-checked proof, for every name (any Unicode string, including quote characters and the empty name) and every backend, that the crate's quoting is read by the engine's identifier lexer as ONE identifier token decoding to exactly the name, stopping at the closing quote the crate wrote. The quote characters are regenerated from the backends' QUOTE constants. Every identifier position of ~25 query and schema statement templates (incl. index / constraint / FK names, type names, the enum-cast type) is checked on the real crate: the token stream with nasty names must equal the plain-name token stream name for name.",
+    level_note="Trusted: Lean kernel; translator (QUOTE constants); the identifier lexers as specified (doubling the closing quote is the only escape in MySQL backtick and Postgres/SQLite double-quote identifiers); differential run for Iden::quoted/prepare; the position templates (a position not in a template is not seen; the derive macro's fast path is C19).",
+    design_ref="§6 C04",
+    scope="all names x 3 backends (quoting level); positions by metamorphic oracle",
+)
